@@ -61,6 +61,11 @@ func runDigraph(n int, deps func(v int) []int, order []int, deferred bool) (cycl
 			if _, e := s.addImmediate(v, deps(v)); e != nil {
 				return false, e
 			}
+			// the question "is there a cycle" is asked of every intermediate
+			// graph too, also right after an add that was rejected
+			if e := s.detect(); e != nil {
+				return false, fmt.Errorf("after AddProvider(%d): %w", v, e)
+			}
 		}
 		cyclic = s.m.Cyclic()
 		if cyclic {
